@@ -906,6 +906,29 @@ fn check_text(ctx: &mut Ctx, req: &str, c: &TextCfg, old: &[u8], new: &[u8], ev:
             }
         }
     }
+    // C09 / C11 / C03 / C15: `TextDiff::ops` is a captured op list like any other
+    if let Err(e) = oracle::normal_form(&o, &n, 0, 0, &calls) {
+        ctx.violation("C09", req, format!("TextDiff::ops: {}", e));
+    }
+    if let Err(e) = oracle::carried_exact(r, &calls) {
+        // attribution: does the failure disappear with the swap repair on (same tokens, same algorithm, same clock)?
+        let mut cc = Case::full(c.alg, &o, &n);
+        cc.dl = c.dl;
+        cc.repair = true;
+        let fixed = super::algs::run_capture(&cc).ops.as_ref().map_or(false, |o2| oracle::carried_exact(r, o2).is_ok());
+        ctx.violation_k("C11", req, format!("TextDiff::ops: {}", e), if fixed { Some("KF-compact-swap") } else { None });
+    }
+    if c.dl.is_none() && c.alg != Algorithm::Patience && o.len().saturating_mul(n.len()) <= 2_000_000 {
+        let l = oracle::lcs_len(&o, &n);
+        let (d, i, e) = oracle::cost(&calls);
+        if d + i != o.len() + n.len() - 2 * l || e != l {
+            ctx.violation("C03", req, format!("TextDiff::ops: deleted+inserted = {} but N+M-2L = {}", d + i, o.len() + n.len() - 2 * l));
+        }
+        let want = if o.len() + n.len() == 0 { 1.0 } else { 2.0 * l as f32 / (o.len() + n.len()) as f32 };
+        if f32::from_bits(ev.ratio_bits) != want {
+            ctx.violation("C03", req, format!("TextDiff::ratio() = {} != 2L/(N+M) = {}", f32::from_bits(ev.ratio_bits), want));
+        }
+    }
     if let Err(e) = &ev.all_driven {
         ctx.violation("C13", req, format!("iter_all_changes: {}", e));
     }
@@ -1337,6 +1360,86 @@ fn render_udiff<T: DiffableStr + ?Sized>(c: &UCfg, repair: bool, old: &T, new: &
             w
         }))
         .ok();
+        // (1) a formatter is a reusable object: render once with OTHER settings, reconfigure, render again --
+        // the result must be what a fresh formatter gives; (2) the hunk-wise entry points (`iter_hunks`,
+        // `UnifiedDiffHunk::{header, ops, to_writer, Display}`) must add up to the whole-diff output.
+        // A difference is made visible to the validators and to the model comparison as a marked output.
+        let consistent = catch_unwind(AssertUnwindSafe(|| -> Result<(), String> {
+            let mut u2 = diff.unified_diff();
+            u2.context_radius(if c.radius % 2 == 0 { c.radius + 2 } else { 0 }).missing_newline_hint(!c.hint);
+            let _ = u2.to_string();
+            let _ = u2.iter_hunks().count();
+            let mut sink: Vec<u8> = Vec::new();
+            let _ = u2.to_writer(&mut sink);
+            u2.context_radius(c.radius).missing_newline_hint(c.hint);
+            if c.hdr {
+                u2.header("a.txt", "b.txt");
+            }
+            let d2 = u2.to_string().into_bytes();
+            let mut w2: Vec<u8> = Vec::new();
+            u2.to_writer(&mut w2).map_err(|e| e.to_string())?;
+            if Some(&d2) != display.as_ref() {
+                return Err("a formatter that was used before with other settings renders differently (Display)".to_string());
+            }
+            // compare with the plain Vec writer output (before any sink marking)
+            let mut w1: Vec<u8> = Vec::new();
+            u.to_writer(&mut w1).map_err(|e| e.to_string())?;
+            if w2 != w1 {
+                return Err("a formatter that was used before with other settings renders differently (to_writer)".to_string());
+            }
+            let mut by_hunk_d = String::new();
+            let mut by_hunk_w: Vec<u8> = Vec::new();
+            let groups: Vec<Vec<DiffOp>> = diff.grouped_ops(c.radius).into_iter().filter(|g| !g.is_empty()).collect();
+            let mut k = 0;
+            for h in u.iter_hunks() {
+                if k == 0 && c.hdr {
+                    by_hunk_d.push_str("--- a.txt\n+++ b.txt\n");
+                    by_hunk_w.extend_from_slice(b"--- a.txt\n+++ b.txt\n");
+                }
+                let hs = h.to_string();
+                let head = h.header().to_string();
+                if hs.lines().next() != Some(head.as_str()) {
+                    return Err(format!("hunk {}: header() = {:?} is not the first line of the hunk", k, head));
+                }
+                if groups.get(k).map(|g| &g[..]) != Some(h.ops()) {
+                    return Err(format!("hunk {}: ops() differ from the grouped ops", k));
+                }
+                if h.missing_newline_hint() != c.hint {
+                    return Err(format!("hunk {}: missing_newline_hint() = {}", k, h.missing_newline_hint()));
+                }
+                let want: Vec<String> = h.ops().iter().flat_map(|op| diff.iter_changes(op)).map(|ch| format!("{:?}", conv_change(ch))).collect();
+                let got: Vec<String> = h.iter_changes().map(|ch| format!("{:?}", conv_change(ch))).collect();
+                if want != got {
+                    return Err(format!("hunk {}: iter_changes() differs from the expansion of its ops", k));
+                }
+                by_hunk_d.push_str(&hs);
+                h.to_writer(&mut by_hunk_w).map_err(|e| e.to_string())?;
+                k += 1;
+            }
+            if k != groups.len() {
+                return Err(format!("iter_hunks yields {} hunks for {} non-empty groups", k, groups.len()));
+            }
+            if Some(by_hunk_d.as_bytes()) != display.as_deref() {
+                return Err("the hunks of iter_hunks (Display) do not add up to the whole diff".to_string());
+            }
+            if by_hunk_w != w1 {
+                return Err("the hunks of iter_hunks (to_writer) do not add up to the whole diff".to_string());
+            }
+            Ok(())
+        }))
+        .unwrap_or_else(|_| Err("panic while re-using the formatter / iterating hunks".to_string()));
+        let (display, writer) = match consistent {
+            Ok(()) => (display, writer),
+            Err(e) => {
+                let mark = |o: Option<Vec<u8>>| {
+                    o.map(|mut v| {
+                        v.extend_from_slice(format!("\n<{}>", e).as_bytes());
+                        v
+                    })
+                };
+                (mark(display), mark(writer))
+            }
+        };
         URender {
             ops: diff.ops().to_vec(),
             old_toks: diff.old_slices().iter().map(|t| t.as_bytes().to_vec()).collect(),
